@@ -54,13 +54,19 @@ func VN_C15_pure() int { return 4 }
 func VQ_C15_pure() int { return 3 } // case 3 (lazy + advanced piece evaluation together) needs a long solver run: thorough
 func VH_C15_pure(k int) {
 	vxStub(vxGetAttacksBb, VxGeoAttacks)
-	vxStub(vxValueFromScore, vxValueFromScoreSummary)
+	if vxSymbolic() { // the summary is an abstraction: the native replay runs the real function
+		vxStub(vxValueFromScore, vxValueFromScoreSummary)
+	}
 	vxSymEvalSwitches(k)
 	p := position.VxSymPosEval("")
 	before := *p
 	tmpScore.MidGameValue = vxInt("tmp.mid")
 	tmpScore.EndGameValue = vxInt("tmp.end")
 	e1, e2 := vxUsedEvaluator("e1."), vxUsedEvaluator("e2.")
+	// e1 has really evaluated another arbitrary position before (whatever an implementation keeps
+	// between evaluations is then a reachable state, not an invented one)
+	p0 := position.VxSymPosEval("p0.")
+	e1.Evaluate(p0)
 	v1 := e1.Evaluate(p)
 	vxAssert(p.VxSameFields(&before), "evaluate-does-not-modify-position")
 	v2 := e2.Evaluate(p)
@@ -80,7 +86,9 @@ func VN_C15_symmetric() int { return 4 }
 func VQ_C15_symmetric() int { return 1 } // quick: default switches; the UCI-exposed combinations run in thorough
 func VH_C15_symmetric(k int) {
 	vxStub(vxGetAttacksBb, VxGeoAttacks)
-	vxStub(vxValueFromScore, vxValueFromScoreSummary)
+	if vxSymbolic() { // the summary is an abstraction: the native replay runs the real function
+		vxStub(vxValueFromScore, vxValueFromScoreSummary)
+	}
 	vxSymEvalSwitches(k)
 	p := position.VxSymPosEval("")
 	m := p.VxMirror()
